@@ -129,7 +129,8 @@ func rulesC14(w *World, r *Report) {
 						bad = "Points loops: decoder repeats " + dn.count + " times (decoded count " + cnt + "), encoder " + en.count + " times and writes count " + encCnt
 					}
 				case "TimeSeries":
-					if !(strings.Contains(dn.count, "Sub(p0.untilTime, p0.fromTime)") && strings.Contains(dn.count, "p0.step") && strings.Contains(en.count, "len(")) {
+					cnt := strings.NewReplacer(":int32", "", ":int64", "", ":int", "").Replace(dn.count)
+					if !(cnt == "(whispertool.Timestamp.Sub(p0.untilTime, p0.fromTime) / p0.step)" && strings.Contains(en.count, "len(")) {
 						bad = "TimeSeries loops: decoder repeats " + dn.count + " times, encoder " + en.count
 					}
 				}
@@ -303,6 +304,7 @@ func rulesC14(w *World, r *Report) {
 		}
 		r.Check(bad == "", "C14.R6", "whispertool.TimeSeries.TakeFrom:zero-series", w.pos(tf.Pos()), "step = from = until = 0 decodes to an absent series", "TimeSeries.TakeFrom: "+bad+" — what AppendTo writes for an unselected archive no longer decodes, and remote view/sum of such an archive fails where the local one succeeds")
 	}
+	ruleHeaderFirstRead(w, r, "C14.R5")
 	// R5 retry
 	r.Rule("C14.R5", "readHeader calls Header.TakeFrom at most twice, never inside a loop, the retry reads exactly WantedBufSize bytes and returns the second error", 1)
 	if rh := need(w, r, "C14.R5", w.Lib, "Whisper.readHeader"); rh != nil {
